@@ -14,6 +14,9 @@ KINDS = ["CSBK/pre", "CSBK/other", "DH/C", "DH/U", "DH/R", "DH/S", "DH/T", "VLC"
          "R12/u", "R12/c", "R12/ul", "R12/cl", "R34/u", "R34/c", "R34/ul", "R34/cl", "R1/u", "R1/c", "R1/ul", "R1/cl"]
 
 
+_PAD = {}
+
+
 def make_pdu(rng, kind, fill=None):
     """fill: None = random payload octets, 0 / 255 = every payload octet of a rate block / PI header has that value"""
     from okdmr.dmrlib.etsi.layer2.elements.data_types import DataTypes as DT
@@ -27,8 +30,11 @@ def make_pdu(rng, kind, fill=None):
             return gen.preamble_csbk(rng, rng.randrange(256), source_address=rng.randrange(1 << 24)), DT.CSBK, None
         return gen.other_csbk(rng, source_address=rng.randrange(1 << 24)), DT.CSBK, None
     if fam == "DH":
+        # the 5-bit pad octet count is split over two places of the header: all 32 values are walked through (per format and per
+        # process), not drawn - 16 is the value at which the split matters
+        _PAD[sub] = _PAD.get(sub, -1) + 1
         return gen.data_header(rng, sub, btf=rng.randrange(0, 64 if sub == "S" else 128), a=sub != "R" and bool(rng.getrandbits(1)),
-                               llid_source=rng.randrange(1 << 24), pad=rng.randrange(32) if sub in "CU" else 0), DT.DataHeader, None
+                               llid_source=rng.randrange(1 << 24), pad=(16 + _PAD[sub]) % 32 if sub in "CU" else 0), DT.DataHeader, None
     if fam in ("VLC", "TLC") and sub:
         return gen.full_lc_other(rng, sub), (DT.VoiceLCHeader if fam == "VLC" else DT.TerminatorWithLC), None
     if fam == "VLC":
